@@ -18,6 +18,7 @@ import (
 	"time"
 
 	"github.com/buzzfeed/sso/internal/auth"
+	authproviders "github.com/buzzfeed/sso/internal/auth/providers"
 	"github.com/buzzfeed/sso/internal/pkg/aead"
 	"github.com/buzzfeed/sso/internal/pkg/sessions"
 	"github.com/buzzfeed/sso/verif/engine/vtime"
@@ -45,6 +46,7 @@ type FakeIdP struct {
 var certOnce sync.Once
 
 func NewFakeIdP() *FakeIdP {
+	authproviders.VerifRelaxClientTimeouts()
 	f := &FakeIdP{}
 	f.Server = httptest.NewUnstartedServer(http.HandlerFunc(func(w http.ResponseWriter, r *http.Request) {
 		r.ParseForm()
@@ -152,6 +154,7 @@ func repeat(b byte, n int) []byte {
 // NewAuthEnv builds sso-auth exactly like cmd/sso-auth: Configuration -> NewAuthenticatorMux ->
 // TimeoutHandler -> logging handler, with an Okta provider whose org URL is the fake IdP.
 func NewAuthEnv(o AuthOpts) (*AuthEnv, error) {
+	authproviders.VerifRelaxClientTimeouts()
 	e := &AuthEnv{Opts: o, IdP: NewFakeIdP()}
 	if o.Slug == "" {
 		o.Slug = "idp"
